@@ -1,11 +1,11 @@
 package main
 
 import (
-	"strings"
 	"go/ast"
 	"go/token"
 	"go/types"
 	"strconv"
+	"strings"
 )
 
 // Difference-bound prover (the classic DBM abstract domain, queried on demand):
